@@ -32,6 +32,7 @@ class PackageSpace:
         # component must still be found in the package's real directory
         self.split_every = 0
         self.odd_every = 0
+        self.lead_every = 0
         self._written = 0
 
     def new_name(self, hint="p"):
@@ -46,6 +47,12 @@ class PackageSpace:
                      else "7", _serial[0], hint)
             if n[0] == "7":
                 n = "7" + self.tag + n[1:]
+        if self.lead_every and _serial[0] % self.lead_every == 0 \
+                and n.startswith("zcvpkg_"):
+            # names beginning with letters of the word 'package' (and one
+            # that begins with that word)
+            n = ["pkg_", "cache_", "egg_", "app_", "k_", "gamma_",
+                 "package_", "e"][_serial[0] // self.lead_every % 8] + n
         self.names.append(n)
         return n
 
@@ -91,8 +98,10 @@ class PackageSpace:
         importlib.invalidate_caches()
 
     def purge(self):
+        mine = set(self.names)
         for n in list(sys.modules):
-            if n.startswith("zcvpkg_%s_" % self.tag):
+            if n.startswith("zcvpkg_%s_" % self.tag) or \
+                    n.split(".")[0] in mine:
                 del sys.modules[n]
         importlib.invalidate_caches()
 
